@@ -36,7 +36,7 @@ func init() {
 			"the monitor adds no synchronisation inside the measured region (per-goroutine logs, monotonic clock, lock-free PRNG) so that it cannot hide races",
 			"interleavings are explored, not enumerated; a schedule tuple is reproducible, its interleaving is not — the race report itself is the witness",
 		},
-		quick: 480, thorough: 8000, minQuick: 250, minThorough: 4000,
+		quick: 800, thorough: 8000, minQuick: 250, minThorough: 4000,
 	}})
 }
 
@@ -194,6 +194,9 @@ type c02World struct {
 	bigVals   map[string]interface{} // values of the fresh identifiers
 	bigTag    string
 }
+
+var c02BadSrcs = []string{"text {{ unclosed", "{% if v %}ok{% endif %}{# unclosed comment", "lead {% unclosed", "{% if %}x{% endif %}", "{{ }}", "{% for %}", "a{{ v|nofilter( }}",
+	strings.Repeat("<p>long broken template</p>\n", 200) + "{{ v ", strings.Repeat("<p>long broken template</p>\n", 200) + "{% if v %}never closed"}
 
 // c02Big builds a template above the large-tokenizer threshold whose print tags use identifiers unique to tag; its output is
 // known by construction, so no serial pre-run (which would warm the engine's process-wide caches) is needed.
@@ -377,6 +380,13 @@ func (p *c02) doCall(e *twig.Engine, w *c02World, c c02Call) (out string, failed
 			if err == nil {
 				out, err = t.Render(w.ctx(c.CtxK))
 			}
+		case "badParse":
+			// sources that fail in the tokenizer or in the parser: the error paths share pooled tokenizers and buffers with
+			// the successful parses running next to them
+			_, err = e.ParseTemplate(c02BadSrcs[c.Ver%len(c02BadSrcs)])
+			if err == nil {
+				out = "parsed-without-error"
+			}
 		case "bigParse":
 			src, vals, _ := c02Big(fmt.Sprintf("%sp%d", w.bigTag, c.Ver))
 			vals["v"] = fmt.Sprintf("V%d", c.CtxK)
@@ -474,6 +484,11 @@ func (p *c02) Run(rec *core.Recorder, seed uint64, idx int, tier string) {
 			kinds[c.Kind] = true
 			scripts[g] = append(scripts[g], c)
 			// first parses of large templates with never-seen identifiers, several goroutines at the same names
+			if r.P(1, 5) {
+				bad := c02Call{Kind: "badParse", Ver: r.Intn(len(c02BadSrcs))}
+				kinds[bad.Kind] = true
+				scripts[g] = append(scripts[g], bad)
+			}
 			if i == 0 || r.P(1, 12) {
 				ck := r.Intn(3)
 				big := c02Call{Kind: []string{"render", "renderTo", "load"}[r.Intn(3)], Name: w.bigNames[r.Intn(len(w.bigNames))], CtxK: ck}
